@@ -1026,6 +1026,45 @@ func (g *generator) renderPkg(m *Module, p *gpkg, decls []*gpkg) {
 		}
 		add(fdoc + "func " + name + "(" + strings.Join(params, ", ") + ") {" + sigTrail + "\n" + indent(b) + "}")
 	}
+	// functions working on a locally declared variable of one type each; under spelling 5 every one of them writes
+	// its type through a function-local alias of the same name `Rec` (an unannotated type among them, first or last)
+	{
+		type recT struct {
+			spell string
+			t     *gtype
+		}
+		var rs []recT
+		for _, t := range visible {
+			if t.kind == 0 && len(rs) < 2 {
+				direct := t.name
+				if t.pkg != p {
+					direct = p.alias[t.pkg] + "." + t.name
+				}
+				if g.o.Spelling != 5 {
+					direct = g.typeRef(p, t, -1)
+				}
+				rs = append(rs, recT{direct, t})
+			}
+		}
+		free := recT{"Free", nil}
+		if g.xr.Bool() {
+			rs = append([]recT{free}, rs...)
+		} else {
+			rs = append(rs, free)
+		}
+		for k, rt := range rs {
+			ty := rt.spell
+			var b []string
+			if g.o.Spelling == 5 {
+				b = append(b, "type Rec = "+rt.spell)
+				ty = "Rec"
+			}
+			rv := g.local("rv")
+			b = append(b, "var "+rv+" "+ty+" "+g.nextTag(), rv+".X = 1 "+g.nextTag(), rv+".Items[0] = 2 "+g.nextTag(), rv+".X++ "+g.nextTag(),
+				g.local("rp")+" := &"+ty+"{} "+g.nextTag(), g.local("rp")+".X += 3 "+g.nextTag())
+			add(fmt.Sprintf("func RecUser%d() {\n", k) + indent(b) + "}")
+		}
+	}
 	// a @testonly helper function whose body uses @testonly items (must stay silent)
 	if len(visible) > 0 && r.Chance(1, 2) && !g.o.NoAnnotations {
 		t := rng.Pick(r, visible)
@@ -1116,6 +1155,7 @@ func (g *generator) renderPkg(m *Module, p *gpkg, decls []*gpkg) {
 	sort.Strings(imports)
 	dir := strings.TrimPrefix(p.path, "exp/")
 	_ = decls
+	unsafeFirst := g.xr.Chance(1, 3) // drawn once per package, whatever the files turn out to import
 	for fi, decls := range files {
 		var sb strings.Builder
 		if g.o.Ignores && r.Chance(1, 12) {
@@ -1137,7 +1177,7 @@ func (g *generator) renderPkg(m *Module, p *gpkg, decls []*gpkg) {
 				}
 			}
 			if len(used) > 0 {
-				if fi == 0 && g.xr.Chance(1, 3) {
+				if fi == 0 && unsafeFirst {
 					// an import that carries no facts, listed ahead of the annotated packages
 					used = append([]string{"\t_ \"unsafe\""}, used...)
 				}
